@@ -18,7 +18,13 @@ def run(c):
         "limits, time-outs (op lines `C03 t`): only the order of the scopes and the roll-back of Group.TakeMsg are modelled (takeMsg/releaseMsg/contend: whether a scope grants is a parameter); "
         "the 5 s deadline is the code's own and is waited for in real time, a handful of scenarios per run in parallel with the session runs",
         "targets, checks and modifiers are the scripted ones of harness/internal/verifshim/vc03 (results are a function of the MAIL/RCPT addresses and the X-Vc03 header field); "
-        "a target operation either returns nil or an error, it does not panic or block",
+        "a target operation either returns nil or an error, it does not panic or block (except Abort in the op lines `C03 a`, below)",
+        "slow aborts (op lines `C03 a`, TestVerifC03SlowAbort): own scripted targets (1-3 per destination) whose Abort returns at once, after a delay (150 ms / 2.3 s in the quick tier, 1.2-11 s thorough) or "
+        "when its context is done, with or without an error; the delays pass in real time, all scenarios of a run at once; there is no model run for these lines (the model's Abort fan-out has no time: "
+        "C03_typestate covers it for targets that return), the rule - every delivery opened on a target is closed exactly once by the time Session.Logout has returned - is judged by the monitor alone; "
+        "no verdict depends on the time anything took; a replay repeats the scenario up to 8 times (the order of the fan-out is a Go map order)",
+        "MAIL parameters (op lines `C03 b`): the sender domain number of an `o` step also selects the parameters of its MAIL command (dom / 1000: none, REQUIRETLS without TLS, BODY=, SMTPUTF8, SIZE=, AUTH=, combinations); "
+        "for the bucket model a variant is another source key, the parameters themselves are not modelled (the model predicts 250 for every one of them while the limiters grant)",
         "one global check, one global modifier, per-domain destination blocks with 0-3 targets; no source blocks, no per-destination checks/modifiers, no nested pipelines (op lines `C03 s`)",
         "one-to-many rewriting (op lines `C03 x`): a scripted table modifier (vc03.XMod) at each of the three rewriting stages of msgpipelineDelivery.AddRcpt - global `modify`, `modify` of the source block, `modify` of every "
         "destination block - with tables fixed per session (address -> 0-3 addresses, 8 ids x 3 routed domains + an unrouted one; ids 6 / 7 are refused by AddRcpt of target 0 / 1); the source-stage modifier hands out its stored "
@@ -74,6 +80,10 @@ def run(c):
         "sessions that keep a transaction open per key, floods of sessions with fresh keys (incl. refusals by a full table), time steps shorter and longer than the interval, a second and third transaction of a held key "
         "(same address and domain, same address only, same domain only), transactions ended by DATA / RSET / QUIT / abrupt close in any order; after EVERY step the real limiter state (users and every semaphore of every bucket) "
         "is compared with the transactions the client knows to be open, per scope and key, and with the Lean bucket model (BSt.steps); "
+        "MAIL commands with parameters (REQUIRETLS on a connection without TLS, BODY=8BITMIME/7BIT, SMTPUTF8, SIZE=, AUTH=<>/mailbox, combinations; 55% of the scenarios) - a refused transaction holds no permit, an accepted one exactly its own; "
+        "plus slow aborts (TestVerifC03SlowAbort, op lines `C03 a`): transactions over 1-3 scripted targets given up by RSET / QUIT / disconnect or failed at the body stage (first / last target) while Abort of the targets is "
+        "quick, slow (returns after a delay longer than 2 s, or when its context is done) or failing; after Session.Logout every delivery opened on a target has to be closed exactly once (C03/delivery-never-closed, "
+        "C03/delivery-closed-twice, C03/use-after-close) and every permit returned; "
         "plus recipients that stand for SEVERAL effective addresses (TestVerifC03Fanout, op lines `C03 x`): pipelines built from configuration text with a one-to-many table modifier at the global, source-block and "
         "destination-block stage (tables address -> 0-3 addresses generated stage by stage from what reaches the stage, expansion of the first / a middle / the last member of a list, members dropped, members routed by "
         "different destination blocks, rejecting blocks, unrouted domains, AddRcpt refusals for single effective addresses), 1-3 recipients, 1-2 transactions, SMTP and LMTP, atomic and per-recipient targets, Body / per-recipient / "
